@@ -9,6 +9,15 @@ CLAIMED = {
               'with every byte outside the range poisoned.'),
         note=('Trusted: Lean kernel; axioms propext, Quot.sound, Classical.choice; the hand-written model (tied by correspondence only); harness/chk.cpp; '
               'tools/*.py. The unaligned 32-bit load is modelled as four byte reads.')),
+    'C08': dict(
+        category='proof', design_ref='DESIGN.md section 7 C08',
+        technique='Lean 4 theorems (strong induction on the value) about a hand-written model of itoa<int>/fast_atoi<int> whose digit table is regenerated from the source + differential correspondence run under UBSan; floating half not yet proved',
+        text=('Integer half: kernel-checked theorems C08_itoa (itoa renders every Int as its canonical decimal text), C08_atoi_itoa (the text parses back to the value) and '
+              'C08_atoi_no_overflow (every int sub-expression evaluated while parsing the text of a 32-bit value stays inside the 32-bit range). The 71-character digit table '
+              'is extracted from f8utils.hpp on every run and the table lemma re-proved by decide. Correspondence: itoa<int>, Field<int>::print, fast_atoi<int>, Field<int>(string) '
+              'against the model on boundary/stratified/random int32 values under UBSan. PARTIAL: the floating half of the property (modp_dtoa, fast_atof) has no theorem yet and is not decided by this check.'),
+        note=('Trusted: Lean kernel; axioms propext, Quot.sound, Classical.choice; hand-written model tied by correspondence; regexp extraction of the digit table; harness/num.cpp; '
+              'int arithmetic modelled on unbounded Int with a proved range statement. binary64 arithmetic is not formalised.')),
 }
 
 PENDING_REASON = 'not yet covered: the Lean model and correspondence harness for this property have not been built in this framework yet (see DESIGN.md section 7 for the plan); no other technique is substituted'
